@@ -340,7 +340,7 @@ func buildArray(mem memory.Allocator, dt arrow.DataType, value any) (arrow.Array
 	case arrow.BOOL:
 		b := array.NewBooleanBuilder(mem)
 		defer b.Release()
-		v, ok := value.(bool)
+		v, ok := asBool(value)
 		if !ok {
 			return nil, fmt.Errorf("expected bool for BOOL field, got %T", value)
 		}
@@ -358,7 +358,7 @@ func buildArray(mem memory.Allocator, dt arrow.DataType, value any) (arrow.Array
 			}
 			b.Append(data)
 		} else {
-			v, ok := value.([]byte)
+			v, ok := asBytes(value)
 			if !ok {
 				return nil, fmt.Errorf("expected []byte for BINARY field, got %T", value)
 			}
@@ -677,7 +677,11 @@ func appendToBuilder(b array.Builder, dt arrow.DataType, value any) error {
 		}
 		b.(*array.Float32Builder).Append(float32(v))
 	case arrow.BOOL:
-		b.(*array.BooleanBuilder).Append(value.(bool))
+		v, ok := asBool(value)
+		if !ok {
+			return fmt.Errorf("expected bool for BOOL field, got %T", value)
+		}
+		b.(*array.BooleanBuilder).Append(v)
 	case arrow.BINARY:
 		if as, ok := value.(ArrowSerializable); ok {
 			data, err := serializeArrowSerializable(as)
@@ -686,7 +690,11 @@ func appendToBuilder(b array.Builder, dt arrow.DataType, value any) error {
 			}
 			b.(*array.BinaryBuilder).Append(data)
 		} else {
-			b.(*array.BinaryBuilder).Append(value.([]byte))
+			v, ok := asBytes(value)
+			if !ok {
+				return fmt.Errorf("expected []byte for BINARY field, got %T", value)
+			}
+			b.(*array.BinaryBuilder).Append(v)
 		}
 	case arrow.LARGE_BINARY:
 		v, ok := asBytes(value)
